@@ -138,7 +138,11 @@ class Model:
         trigger = strip_cvref(trigger); ev = strip_cvref(ev)
         if trigger == ev: return True
         if policy == 'fct': return False
-        if self.is_kleene(trigger): return True
+        if self.is_kleene(trigger):
+            # a Kleene trigger matches every event a user can submit - not the library's own completion event, which only
+            # trigger-less rows react to
+            rec = self.F.rec_by_type(ev)
+            return not (rec and 'completion_event' in rec['tds'])
         return trigger in self.bases_of(ev)
     # ---- structure
     def source_state(self, row):
